@@ -1,6 +1,137 @@
-From Coq Require Import List Bool.
-From MV Require Import Base.Bytes Model.RawRelay.
+(* Props/C29.v -- Raw TCP and UDP relaying is exact and each flow ends once.
+   The model describes tcp.py WITH fixes/C29-track-handled-closes.diff (finding close-while-paused-drops-data,
+   fixed): all_done is decided from the closes the layer has handled (_eof_handled), not from
+   connection.state.
+   Model: Model/RawRelay.v (TCPLayer and UDPLayer as one state machine with a proto switch, the
+   pause/queue discipline of Layer.handle_event, and the state bits kept by server.py).
+   Every theorem quantifies over every addon policy pol, every configuration (TCP or UDP, server
+   pre-connected or opened by the layer) and every event list (data, closes, injections, replies
+   carrying addon actions, connect failures, in any order), unless a guard is stated. *)
+From Coq Require Import List Bool Arith.
+From MV Require Import Base.Bytes Model.RawRelay Proofs.RawRelay Proofs.RawRelayEnd Proofs.RawRelayLoss Proofs.RawRelayTcpLoss.
 Import ListNotations.
-Theorem C29_nonvacuous : ph (init (mkCfg TCP false true)) = PStart.
-Proof. reflexivity. Qed.
+
+(* (1) Exactness.  Per direction, the chunks sent to the peer are exactly the contents of the
+   recorded messages of that direction whose hook has completed (after the addon edit; injected
+   messages included), in order, chunk by chunk.  When no message hook is outstanding that is the
+   whole recorded list. *)
+Theorem C29_exact_relay :
+  forall (pol : policy) (c : cfg) (evs : list event),
+  ignore c = false ->
+  let '(st, out) := run pol (init c) evs in
+  forall from_client : bool,
+    sends (side_of (negb from_client)) out = rec_of from_client (sent_msgs st) /\
+    ((forall to, wait st <> WMsgHook to) ->
+     sends (side_of (negb from_client)) out = recorded from_client (fl st)).
+Proof. exact exact_relay_full. Qed.
+Print Assumptions C29_exact_relay.
+
+(* (2) Exactly one of the end/error hooks, nothing relayed after it.  end_once scans the command
+   trace: it yields None on a second end/error hook or on any SendData, message hook or start hook
+   after the first one, and otherwise tells whether the hook has fired.  It has fired iff a flow
+   exists and the layer is done or awaits the reply to the error hook. *)
+Theorem C29_end_once :
+  forall (pol : policy) (c : cfg) (evs : list event),
+  let '(st, out) := run pol (init c) evs in
+  end_once false out = Some (ended st) /\ wait_ph_ok st.
+Proof. exact end_once_run. Qed.
+Print Assumptions C29_end_once.
+
+(* (2b) ... and the flow does end: whenever the layer is idle and not done, at least one peer
+   can still send.  So once both peers have closed and the hooks are answered the layer is done,
+   which by (2) means the end hook has fired exactly once. *)
+Theorem C29_both_closed_ends :
+  forall (pol : policy) (c : cfg) (evs : list event),
+  let '(st, out) := run pol (init c) evs in
+  crashed st = false -> wait st = NoWait -> ph st <> PDone ->
+  can_read (client st) || can_read (server st) = true.
+Proof. exact both_closed_ends. Qed.
+Print Assumptions C29_both_closed_ends.
+
+(* (3) Half-close.  In any idle relaying TCP state in which the close of the other peer has not been
+   handled, a ConnectionClosed is answered by exactly one command, CloseTcpConnection(other,
+   half_close=True); the layer keeps relaying, and the next chunk from the other peer is recorded,
+   passed through the message hook and sent (with the addon edit) to the peer that closed. *)
+Theorem C29_half_close_propagated :
+  forall (pol : policy) (st : state) (from : side),
+  crashed st = false -> pr (cf st) = TCP -> ph st = PRelay -> wait st = NoWait -> queue st = [] ->
+  eof_of st (other from) = false ->
+  let '(st1, o1) := arrive pol st (EClosed from) in
+  o1 = [HalfClose (other from)] /\ ph st1 = PRelay /\ wait st1 = NoWait /\ crashed st1 = false /\
+  can_read (conn_of st1 from) = false /\ eof_of st1 from = true /\ eof_of st1 (other from) = false /\
+  can_write (conn_of st1 (other from)) = false /\
+  forall d, let '(st2, o2) := arrive pol st1 (EData (other from) d) in
+    if ignore (cf st) then o2 = [SendData from d]
+    else o2 = [MessageHook] /\
+         forall a err, snd (arrive pol st2 (EReply a err)) =
+           [SendData from (match edit (pol (messages (fl st2)) a) with Some c => c | None => d end)].
+Proof. exact half_close_step. Qed.
+Print Assumptions C29_half_close_propagated.
+
+(* (4) No loss: every chunk received from a peer is recorded (or still queued).  For the repaired
+   TCPLayer this holds under the plain transport contract respects false (Start first and once, data
+   and closes only from a peer that is still readable, connect succeeds): closes may arrive while the
+   layer is paused, in any order, with data queued between them.  (Before the repair this was the
+   finding close-while-paused-drops-data; C29_queued_closes_relayed replays its schedule.) *)
+Theorem C29_no_loss :
+  forall (pol : policy) (c : cfg) (evs : list event) (X : side),
+  pr c = TCP -> ignore c = false -> respects false pol (init c) evs = true ->
+  let '(st, out) := run pol (init c) evs in
+  count_data X evs <= length (recorded (is_client X) (fl st)) + count_data X (queue st).
+Proof. exact no_loss_tcp. Qed.
+Print Assumptions C29_no_loss.
+
+Theorem C29_queued_closes_relayed :
+  let c := mkCfg TCP false true false in
+  respects false pol_id (init c) queued_closes = true /\
+  let '(st, out) := run pol_id (init c) queued_closes in
+  out = [StartHook; HalfClose Server; MessageHook; SendData Client [x6c; x61; x74; x65];
+         CloseConnection Client; EndHook] /\
+  ph st = PDone /\ wait st = NoWait /\ recorded false (fl st) = [[x6c; x61; x74; x65]].
+Proof. exact queued_closes_run. Qed.
+Print Assumptions C29_queued_closes_relayed.
+
+(* UDP has no half-close: the first close handled ends the flow (udp.py), so a chunk queued behind a
+   close is dropped by design.  Under respects true (no close delivered while the layer is paused)
+   nothing is lost. *)
+Theorem C29_no_loss_udp :
+  forall (pol : policy) (c : cfg) (evs : list event) (X : side),
+  pr c = UDP -> ignore c = false -> respects true pol (init c) evs = true ->
+  let '(st, out) := run pol (init c) evs in
+  count_data X evs <= length (recorded (is_client X) (fl st)) + count_data X (queue st).
+Proof. exact no_loss_udp. Qed.
+Print Assumptions C29_no_loss_udp.
+
+(* (5) Nothing is sent to a connection after the layer closed or half-closed it.
+   FALSE at full strength -- finding send-after-half-close: a message injected on behalf of a peer
+   that already closed is recorded and sent to the other connection after that connection was
+   half-closed (server.py then writes after write_eof). *)
+Theorem C29_no_send_after_close_refuted :
+  exists pol c evs,
+    respects true pol (init c) evs = true /\ late_send (snd (run pol (init c) evs)) = true.
+Proof. exact no_late_send_refuted. Qed.
+Print Assumptions C29_no_send_after_close_refuted.
+
+(* Guard: injects_live = injections are made only on behalf of a peer that has not closed, which is
+   the complement of the finding; respects true is kept as well (proof economy: the statement is
+   expected to hold without the calm clause, this is not proved). *)
+Theorem C29_no_send_after_close_partial :
+  forall (pol : policy) (c : cfg) (evs : list event),
+  respects true pol (init c) evs = true -> injects_live pol (init c) evs = true ->
+  late_send (snd (run pol (init c) evs)) = false.
+Proof. exact no_late_send. Qed.
+Print Assumptions C29_no_send_after_close_partial.
+
+(* non-vacuity: a TCP flow with connect, both directions, a queued chunk, an edit, a kill, a
+   half-close, an injection and the final close satisfies both guards; its exact trace. *)
+Theorem C29_nonvacuous :
+  let c := mkCfg TCP false false false in
+  respects true pol_id (init c) demo = true /\ injects_live pol_id (init c) demo = true /\
+  let '(st, out) := run pol_id (init c) demo in
+  out = [StartHook; OpenConnection; MessageHook; SendData Server [x41; x42]; MessageHook; SendData Client [x62];
+         HalfClose Server; MessageHook; SendData Client [x63]; MessageHook; SendData Client [x64];
+         CloseConnection Client; EndHook] /\
+  ph st = PDone /\ wait st = NoWait /\ f_live (fl st) = false /\ f_error (fl st) = true /\
+  recorded true (fl st) = [[x41; x42]] /\ recorded false (fl st) = [[x62]; [x63]; [x64]].
+Proof. exact demo_run. Qed.
 Print Assumptions C29_nonvacuous.
